@@ -22,11 +22,11 @@ type caseT struct {
 	Cuts      []int    `json:"cuts,omitempty"`       // cut points in the carrier byte stream
 	OneByte   bool     `json:"one_byte_reads,omitempty"`
 	Fast      bool     `json:"http_fast_path,omitempty"` // HTTP tunnel: POST request not re-parsed (see Assume)
-	Trunc     int      `json:"truncate_to,omitempty"` // totality: keep this many carrier bytes (-1: all)
-	Mut       [][2]int `json:"mutations,omitempty"`   // totality: [position, byte value]
-	Limit     string   `json:"limit,omitempty"`       // limits: which limit
-	N         int      `json:"n,omitempty"`           // limits: size used
-	Chunk     int      `json:"chunk,omitempty"`       // limits / b64mem: chunk size of the delivery
+	Trunc     int      `json:"truncate_to,omitempty"`    // totality: keep this many carrier bytes (-1: all)
+	Mut       [][2]int `json:"mutations,omitempty"`      // totality: [position, byte value]
+	Limit     string   `json:"limit,omitempty"`          // limits: which limit
+	N         int      `json:"n,omitempty"`              // limits: size used
+	Chunk     int      `json:"chunk,omitempty"`          // limits / b64mem: chunk size of the delivery
 	Msg       string   `json:"msg,omitempty"`
 	Window    string   `json:"bytes_around_first_cut,omitempty"`
 }
@@ -73,6 +73,14 @@ func readBack(s *session, exp []*expected, st *b64stat) (f *failure) {
 		if field, msg := exp[i].compare(got); field != "" {
 			return &failure{kind: "mismatch", idx: i, field: field, msg: msg}
 		}
+	}
+	if s.pair != nil {
+		// reused WebSocket connection: no read past the end (it would poison the connection)
+		if s.cr.pos != len(s.cr.data) || s.brs[len(s.brs)-1].Buffered() != 0 {
+			return &failure{kind: "extra", idx: i, field: "leftover", msg: fmt.Sprintf("all elements read but %d carrier bytes unread, %d bytes buffered", len(s.cr.data)-s.cr.pos, s.brs[len(s.brs)-1].Buffered())}
+		}
+		s.w.pair = s.pair
+		return nil
 	}
 	got, err := s.conn.Read()
 	if err == nil {
